@@ -485,6 +485,7 @@ _FOREIGN = [
     "cirq.MeasurementKey('k')", "cirq.MeasurementKey('k', path=('p', 'q'))", "cirq.X(cirq.NamedQubit('a'))", "cirq.CZ(cirq.NamedQubit('a'), cirq.NamedQubit('b')).with_tags('t')",
     "cirq.Moment(cirq.X(cirq.NamedQubit('a')), cirq.measure(cirq.NamedQubit('b'), key='m'))", "cirq.FrozenCircuit(cirq.H(cirq.NamedQubit('a')), cirq.measure(cirq.NamedQubit('a'), key='m'))",
     "cirq.PauliString({cirq.NamedQubit('a'): cirq.X, cirq.NamedQubit('b'): cirq.Z})", "cirq.CircuitOperation(cirq.FrozenCircuit(cirq.X(cirq.NamedQubit('a'))))", "cirq.ParamResolver({'s': 0.5})", "cirq.GateFamily(cirq.X)",
+    "cirq.GateFamily(cirq.X, tags_to_accept=['alpha', 'beta', 'gamma', 'delta'])", "cirq.GateFamily(cirq.ZPowGate, tags_to_ignore=['p', 'q', 'r'])", "cirq.Gateset(cirq.GateFamily(cirq.CZ, tags_to_accept=['u', 'v', 'w']), cirq.X)",
     "cirq.Gateset(cirq.X, cirq.CZ, name='g')", "cirq.ProductState({cirq.NamedQubit('a'): cirq.KET_PLUS})", "cirq_pasqal.ThreeDQubit(1, 2, 3)", "cirq_pasqal.TwoDQubit(1, 2)", "cirq.SingleQubitCliffordGate.H", "cirq.Duration(nanos=5)",
     "cirq_google.PhysicalZTag()", "cirq_google.InternalGate('g', 'n', 1)", "cirq.ops.InsertStrategy.EARLIEST" if False else "cirq.KET_ZERO",
 ]
@@ -505,7 +506,11 @@ def standin_foreign_pickles(tier, seed):
         "for line in sys.stdin.read().splitlines():\n"
         "    v = eval(line)\n"
         "    hash(v); {v: 1}\n"
-        "    sys.stdout.write(base64.b64encode(pickle.dumps(v)).decode() + '\\n')\n"
+        "    try:\n"
+        "        js = cirq.to_json(v)\n"
+        "    except Exception:\n"
+        "        js = ''\n"
+        "    sys.stdout.write(base64.b64encode(pickle.dumps(v)).decode() + ' ' + base64.b64encode(js.encode()).decode() + '\\n')\n"
     )
     env = dict(os.environ, PYTHONHASHSEED=str(1000 + seed % 1000))
     cases, fails = 0, []
@@ -525,7 +530,13 @@ def standin_foreign_pickles(tier, seed):
         cases += 1
         try:
             here = eval(expr)
+            blob, _, js64 = blob.partition(" ")
             there = pickle.loads(base64.b64decode(blob))
+            text = base64.b64decode(js64).decode() if js64 else ""
+            if text:
+                read = cirq.read_json(json_text=text)
+                if not _eq(read, here) or hash(read) != hash(here):
+                    fails.append(dict(args=dict(value=expr, json=text[:600]), failed="foreign-json-differs", clause="JSON text written by another interpreter reads back as a value that differs from (or hashes differently than) the one the same expression builds here"))
         except Exception as ex:
             fails.append(dict(args=dict(value=expr), failed="foreign-pickle-raised", clause=f"{ex!r}"))
             continue
